@@ -24,6 +24,8 @@ func init() {
 type queueHelpers struct {
 	qType                *types.Named
 	enq, deq, head, emit *ssa.Function
+	// field roles, discovered from types and from emit's nil test (never from names)
+	fHead, fTail, fValue, fNext string
 }
 
 func findQueueHelpers(c *core.Ctx, mqType types.Type) *queueHelpers {
@@ -35,7 +37,39 @@ func findQueueHelpers(c *core.Ctx, mqType types.Type) *queueHelpers {
 	if !ok {
 		return nil
 	}
+	qst, ok := nt.Underlying().(*types.Struct)
+	if !ok {
+		return nil
+	}
 	q := &queueHelpers{qType: nt.Origin()}
+	// node type: the struct type two fields of the queue point to
+	var nodeFields []string
+	var nodeT *types.Named
+	for i := 0; i < qst.NumFields(); i++ {
+		if fp, isP := qst.Field(i).Type().(*types.Pointer); isP {
+			if fn, isN := fp.Elem().(*types.Named); isN {
+				if _, isS := fn.Underlying().(*types.Struct); isS {
+					nodeFields = append(nodeFields, qst.Field(i).Name())
+					nodeT = fn
+				}
+			}
+		}
+	}
+	if len(nodeFields) != 2 || nodeT == nil {
+		return nil
+	}
+	nst := nodeT.Underlying().(*types.Struct)
+	for i := 0; i < nst.NumFields(); i++ {
+		fp, isP := nst.Field(i).Type().(*types.Pointer)
+		if !isP {
+			continue
+		}
+		if fn, isN := fp.Elem().(*types.Named); isN && fn.Origin() == nodeT.Origin() {
+			q.fNext = nst.Field(i).Name()
+		} else {
+			q.fValue = nst.Field(i).Name()
+		}
+	}
 	sp := c.W.SSA["pipe"]
 	for _, m := range sp.Members {
 		fn, ok := m.(*ssa.Function)
@@ -54,21 +88,43 @@ func findQueueHelpers(c *core.Ctx, mqType types.Type) *queueHelpers {
 		res := fn.Signature.Results()
 		switch {
 		case len(fn.Params) == 2 && res.Len() == 0:
-			q.enq = fn
+			if _, isPtr := fn.Params[0].Type().(*types.Pointer); isPtr {
+				q.enq = fn
+			}
 		case len(fn.Params) == 2 && res.Len() == 1:
-			if _, isChan := res.At(0).Type().Underlying().(*types.Chan); isChan {
+			_, inChan := fn.Params[0].Type().Underlying().(*types.Chan)
+			_, outChan := res.At(0).Type().Underlying().(*types.Chan)
+			if inChan && outChan {
 				q.emit = fn
 			}
 		case len(fn.Params) == 1 && res.Len() == 1:
 			if _, isPtr := res.At(0).Type().(*types.Pointer); isPtr {
 				q.deq = fn
-			} else {
+			} else if _, isCh := res.At(0).Type().Underlying().(*types.Chan); !isCh {
 				q.head = fn
 			}
 		}
 	}
-	if q.enq == nil || q.deq == nil || q.head == nil || q.emit == nil {
+	if q.enq == nil || q.deq == nil || q.head == nil || q.emit == nil || q.fNext == "" || q.fValue == "" {
 		return nil
+	}
+	// head = the field emit tests for nil
+	an := c.Analyze(q.emit)
+	for _, p := range an.AllPaths() {
+		for _, st := range p.Events(ir.KBranch) {
+			st.Atom.Walk(func(t *ir.Term) {
+				if t.Op == "faddr" && (t.Aux == nodeFields[0] || t.Aux == nodeFields[1]) {
+					q.fHead = t.Aux
+				}
+			})
+		}
+	}
+	if q.fHead == "" {
+		return nil
+	}
+	q.fTail = nodeFields[0]
+	if q.fTail == q.fHead {
+		q.fTail = nodeFields[1]
 	}
 	return q
 }
@@ -126,7 +182,7 @@ func runC08(c *core.Ctx) {
 	queueSummaries(c, qh)
 
 	isHelper := func(st *ir.Step, fn *ssa.Function) bool { return st.Kind == ir.KEnter && st.Static == fn }
-	headNil := &ir.Term{Op: "bin", Aux: "==", Args: sorted2(ir.Nil, &ir.Term{Op: "load", Args: []*ir.Term{{Op: "faddr", Aux: "head", Args: []*ir.Term{mq}}}})}
+	headNil := &ir.Term{Op: "bin", Aux: "==", Args: sorted2(ir.Nil, &ir.Term{Op: "load", Args: []*ir.Term{{Op: "faddr", Aux: qh.fHead, Args: []*ir.Term{mq}}}})}
 	_ = headNil
 
 	// the main loop: the header whose segments contain the select with the Done arm
@@ -542,7 +598,7 @@ func queueSummaries(c *core.Ctx, q *queueHelpers) {
 		ok := len(an.Problems) == 0
 		qp := &ir.Term{Op: "param", Aux: fn.Params[1].Name()}
 		for _, p := range an.AllPaths() {
-			empty := polarity(p, isNilAtom(fld(qp, "head")))
+			empty := polarity(p, isNilAtom(fld(qp, q.fHead)))
 			r := p.Results[0]
 			if !(empty > 0 && r.IsNil() || empty < 0 && paramOf(r, fn, 0)) || len(nonLocalStores(p)) != 0 || len(p.Events(ir.KSend, ir.KRecv, ir.KSelect)) != 0 {
 				ok = false
@@ -557,9 +613,9 @@ func queueSummaries(c *core.Ctx, q *queueHelpers) {
 		ok := len(an.Problems) == 0
 		qp := &ir.Term{Op: "param", Aux: fn.Params[0].Name()}
 		for _, p := range an.AllPaths() {
-			empty := polarity(p, isNilAtom(fld(qp, "head")))
+			empty := polarity(p, isNilAtom(fld(qp, q.fHead)))
 			r := p.Results[0]
-			want := &ir.Term{Op: "load", Aux: "0", Args: []*ir.Term{fld(fld(qp, "head"), "value")}}
+			want := &ir.Term{Op: "load", Aux: "0", Args: []*ir.Term{fld(fld(qp, q.fHead), q.fValue)}}
 			if empty < 0 && !ir.Same(r, want) || empty == 0 || len(nonLocalStores(p)) != 0 {
 				ok = false
 			}
@@ -580,7 +636,7 @@ func queueSummaries(c *core.Ctx, q *queueHelpers) {
 			// the node: the value whose .value is set to param x
 			var node *ir.Term
 			for _, st := range nonLocalStores(p) {
-				if st.A[0].Op == "faddr" && st.A[0].Aux == "value" && paramOf(st.A[1], fn, 0) {
+				if st.A[0].Op == "faddr" && st.A[0].Aux == q.fValue && paramOf(st.A[1], fn, 0) {
 					node = st.A[0].Args[0]
 				}
 			}
@@ -588,21 +644,21 @@ func queueSummaries(c *core.Ctx, q *queueHelpers) {
 				ok, why = false, "no node receives the value"
 				break
 			}
-			tailNil := polarity(p, isNilAtom(fld(qp, "tail")))
-			headNil := polarity(p, isNilAtom(fld(qp, "head")))
+			tailNil := polarity(p, isNilAtom(fld(qp, q.fTail)))
+			headNil := polarity(p, isNilAtom(fld(qp, q.fHead)))
 			var setNextNil, linkAfterTail, setTail, setHead bool
 			for _, st := range nonLocalStores(p) {
 				a, v := st.A[0], st.A[1]
 				switch {
-				case a.Op == "faddr" && a.Aux == "next" && ir.Same(a.Args[0], node) && v.IsNil():
+				case a.Op == "faddr" && a.Aux == q.fNext && ir.Same(a.Args[0], node) && v.IsNil():
 					setNextNil = true
-				case a.Op == "faddr" && a.Aux == "next" && ir.Same(a.Args[0], fld(qp, "tail")) && ir.Same(v, node):
+				case a.Op == "faddr" && a.Aux == q.fNext && ir.Same(a.Args[0], fld(qp, q.fTail)) && ir.Same(v, node):
 					linkAfterTail = true
-				case a.Op == "faddr" && a.Aux == "tail" && ir.Same(a.Args[0], qp) && ir.Same(v, node):
+				case a.Op == "faddr" && a.Aux == q.fTail && ir.Same(a.Args[0], qp) && ir.Same(v, node):
 					setTail = true
-				case a.Op == "faddr" && a.Aux == "head" && ir.Same(a.Args[0], qp) && ir.Same(v, node):
+				case a.Op == "faddr" && a.Aux == q.fHead && ir.Same(a.Args[0], qp) && ir.Same(v, node):
 					setHead = true
-				case a.Op == "faddr" && a.Aux == "value":
+				case a.Op == "faddr" && a.Aux == q.fValue:
 				default:
 					ok, why = false, "unexpected store "+short(a)
 				}
@@ -620,26 +676,26 @@ func queueSummaries(c *core.Ctx, q *queueHelpers) {
 		ok := len(an.Problems) == 0 && len(an.Headers) == 0
 		why := "could not be modelled"
 		qp := &ir.Term{Op: "param", Aux: fn.Params[0].Name()}
-		oldHead := fld(qp, "head")
+		oldHead := fld(qp, q.fHead)
 		for _, p := range an.AllPaths() {
 			if !ok {
 				break
 			}
-			wasTail := polarity(p, &ir.Term{Op: "bin", Aux: "==", Args: sorted2(oldHead, fld(qp, "tail"))})
+			wasTail := polarity(p, &ir.Term{Op: "bin", Aux: "==", Args: sorted2(oldHead, fld(qp, q.fTail))})
 			var advHead, clrTail bool
 			for _, st := range nonLocalStores(p) {
 				a, v := st.A[0], st.A[1]
 				switch {
-				case a.Op == "faddr" && a.Aux == "head" && ir.Same(a.Args[0], qp) && ir.Same(v, fld(oldHead, "next")):
+				case a.Op == "faddr" && a.Aux == q.fHead && ir.Same(a.Args[0], qp) && ir.Same(v, fld(oldHead, q.fNext)):
 					advHead = true
-				case a.Op == "faddr" && a.Aux == "tail" && ir.Same(a.Args[0], qp) && v.IsNil():
+				case a.Op == "faddr" && a.Aux == q.fTail && ir.Same(a.Args[0], qp) && v.IsNil():
 					clrTail = true
 				default:
 					ok, why = false, "unexpected store "+short(a)+" := "+short(v)
 				}
 			}
 			r := p.Results[0]
-			if !advHead || clrTail != (wasTail > 0) || wasTail == 0 || !(r.Op == "load" && r.Args[0].Op == "faddr" && r.Args[0].Aux == "value" && ir.Same(r.Args[0].Args[0], oldHead)) {
+			if !advHead || clrTail != (wasTail > 0) || wasTail == 0 || !(r.Op == "load" && r.Args[0].Op == "faddr" && r.Args[0].Aux == q.fValue && ir.Same(r.Args[0].Args[0], oldHead)) {
 				ok, why = false, fmt.Sprintf("expected head := head.next, tail := nil iff the removed node was the tail, result the removed node's value (advance %v, clear-tail %v with was-tail %d, result %s)", advHead, clrTail, wasTail, short(r))
 			}
 		}
